@@ -99,6 +99,7 @@ def execute(cases, tier):
     cats = collections.Counter()
     keys = set()
     mcases, rows = [], []
+    scases, srows = [], []     # serial runs predicted by the serial driver model (coq/Serial.v)
     dcases, dexp = [], []      # parallel runs replayed by the driver model (coq/Driver.v), fail-fast and refusals included
     for ci, c in enumerate(cases):
         sb = clirun.Sandbox("c16")
@@ -136,6 +137,8 @@ def execute(cases, tier):
                 spec = "contradicts L1 (C16_exit): exit status 0 although a test file crashed its task (%r)" % [p for p, i in c["info"].items() if i["kind"] == "panic"]
         else:
             got = {}
+            if any(p == "" for p, _, _ in st):
+                spec = "contradicts L1 (C16: status lines name their file): a `[CANCELLED] ...` line names no file; reports in order: %r" % ([x[:2] for x in st],)
             for p, tag, line in st:
                 if p in got:
                     spec = spec or "contradicts L1 (C16_no_interleave): two status lines for %s" % p
@@ -171,6 +174,12 @@ def execute(cases, tier):
             code = {"OK": 0, "FAILED": 1, "CANCELLED": 2, "SKIPPED": 3}
             mcases.append([[code.get(got.get(p), 1) for p in [x[0] for x in st if x[0] in truth]], bool(c["fail_fast"]), False])
             rows.append((c, r, got))
+        if not c["jobs"] and not has_panic and not r["hung"] and c.get("engine_ok", True):
+            # serial mode: the Coq model of run_serial (Serial.v) predicts every report, in file order, and the exit status
+            order = sorted(truth)
+            refused = drvmodel.refused_paths(c)
+            scases.append([[0 if truth[p] == "ok" else (4 if p in refused else 1) for p in order], 1 if c["fail_fast"] else 0, []])
+            srows.append((c, r, order, [tag for p, tag, _ in st if p in truth], [p for p, tag, _ in st if p in truth]))
         if c["jobs"] and not has_panic and not r["hung"] and c.get("engine_ok", True) and c["meta"].get("single") != "colliding-names":
             try:
                 tr, _ = c17mod.build_trace(r["events"])
@@ -195,6 +204,16 @@ def execute(cases, tier):
         if (r["rc"] == 0) != want_rc0:
             disagreements.append({"case": c, "impl": {"rc": r["rc"], "results": got}, "model": m,
                                   "spec": "contradicts L1 (C16_exit): exit status %r, the drivers' bookkeeping on the observed results gives %r" % (r["rc"], m), "broken": "corr_C16_cli"})
+    souts = vlib.run_model("serial", scases)
+    vm_n += vlib.vm_crosscheck("serial", scases, souts, 5, PID + "s")
+    code_tag = {0: "OK", 1: "FAILED", 4: "FAILED", 2: "CANCELLED", 3: "SKIPPED"}
+    for (c, r, order, tags, paths), m in zip(srows, souts):
+        want = [code_tag[x] for x in m[0]]
+        cats["serial_model_predicted"] += 1
+        if paths != order or tags != want or (r["rc"] != 0) != (m[1] != 0):
+            disagreements.append({"case": c, "impl": {"reports": list(zip(paths, tags)), "rc": r["rc"]}, "model": {"reports": list(zip(order, want)), "exit": m[1]},
+                                  "spec": "contradicts L1 (C16_serial_plain_results / C16_serial_exit): serial run reports %r exit %r, the model of run_serial gives %r exit %r" % (
+                                      list(zip(paths, tags)), r["rc"], list(zip(order, want)), m[1]), "broken": "corr_C16_serial_model"})
     douts = vlib.run_model("driver", dcases)
     vm_n += vlib.vm_crosscheck("driver", dcases, douts, 5, PID + "d")
     k = 0
@@ -219,7 +238,7 @@ def execute(cases, tier):
         if why:
             disagreements.append({"case": c, "impl": {"stdout": r["stdout"][-800:], "rc": r["rc"]}, "model": "coq/Driver.v replayed on the schedule reconstructed from the run",
                                   "spec": None, "note": "the run is not a run of the driver model: " + why, "broken": "corr_C16_driver_model"})
-    stats = {"evaluations": len(cases), "model_evaluations": len(mcases) + len(dcases), "distinct_nontrivial": len(keys), "rule": RULE,
+    stats = {"evaluations": len(cases), "model_evaluations": len(mcases) + len(dcases) + len(scases), "distinct_nontrivial": len(keys), "rule": RULE,
              "categories": dict(sorted(cats.items())), "vm_compute_crosschecked": vm_n,
              "samples": [{"files": [f[0] for f in c["files"]], "truth": c["truth"], "jobs": c["jobs"], "fail_fast": c["fail_fast"]} for c in cases[:3]],
              "disagreements": len(disagreements)}
